@@ -446,3 +446,29 @@ def c12(c):
              "(ILP32, WIDE), noop, dylib (two shared objects); library-provided and embedder-provided TLS.",
         exhaustive=False,
         assumptions=["host-ABI guests (noop, dylib) report what they got back through their return value"]))
+
+
+# --------------------------------------------------------------------- C19
+@plan("C19")
+def c19(c):
+    units, runs = [], []
+    cfgs = [("all", ["HOOK_IN", "HOOK_OUT", "HOOK_TIME"]), ("inout", ["HOOK_IN", "HOOK_OUT"]), ("in", ["HOOK_IN"]), ("out", ["HOOK_OUT"]), ("time", ["HOOK_TIME"])]
+    for tag, defs in cfgs:
+        nm = "c19_" + tag
+        units.append(dict(name=nm, srcs=[D + "c19_transitions.cpp"], build="asan", defs=EXC + ["CFG=vsbx_ilp32"] + defs))
+        runs.append(dict(unit=nm, label=nm + "[model]", args=[0], count_distinct=(tag == "all")))
+        runs.append(dict(unit=nm, label=nm + "[noop]", args=[1], count_distinct=(tag == "all")))
+    return dict(units=units, runs=runs, evidence=dict(
+        level="fault_enumeration",
+        rule="case = (random call tree of nested invocations and callbacks over two live sandboxes with distinct transition states, depth <= 3 quick / 5 "
+             "thorough, <= 14 invocations, abort position). For every tree: the abort-free run plus one run per invocation with an abort injected in "
+             "its argument conversion and per callback with an abort injected in its body and in its result conversion (exception mode). The hook "
+             "trace is checked online against the pushdown grammar Inv := IN(INVOKE) (Cb)* OUT(INVOKE), Cb := OUT(CALLBACK) (Inv)* IN(CALLBACK) with "
+             "matching name / function pointer or callback key / transition state, then compared event by event with the trace the driver's own "
+             "call tree prescribes (crossings open at the abort are closed innermost first); with timing enabled each sandbox must hold exactly one "
+             "record per crossing, matching it, in completion order. Configurations: IN only, OUT only, both, timing only, all. Backends model "
+             "(ILP32) and noop (host ABI: only body aborts can be injected). distinct_nontrivial = distinct tree shapes (abort positions are "
+             "enumerated completely per tree).",
+        exhaustive=False,
+        exhaustive_subspaces=["every abort position (argument conversion of every invocation, body and result conversion of every callback) of every generated tree"],
+        assumptions=["aborts are observed in exception mode (RLBOX_USE_EXCEPTIONS), the mode in which a crossing can end by unwinding"]))
